@@ -1,7 +1,7 @@
 (* C08: the cases written by the harness (harness/src/c08.rs) and how the models are run on them.
    Definitions only. *)
 From ZV.Common Require Import Base Run.
-From ZV.C08 Require Import Model ModelFixedCap ModelStats ModelSecure.
+From ZV.C08 Require Import Model ModelFixedCap ModelStats ModelSecure ModelMemPool.
 Open Scope N_scope.
 
 Definition eqb_oln (a b : option (list N)) : bool :=
@@ -60,11 +60,23 @@ Definition ok_sp (c : sp_case) : bool :=
   let '(f1, f2, f3, f4) := sfinal_obs s 200 in
   eqb_ln (flat ev) notes && eqb_oln f1 stack && eqb_lln f2 helds && eqb_lln f3 caches && eqb_ln f4 counters.
 
+(* pool.rs MemoryPool: chunk_size, max_chunks, threads, schedule, notes, pooled chunks (serials, front
+   first), held serials per thread, [allocated; alloc_count; dealloc_count; pool_hits; pool_misses; lock] *)
+Definition mp_case : Type :=
+  N * N * nat * list (nat * mcmd) * list N * list N * list (list N) * list N.
+Definition ok_mp (c : mp_case) : bool :=
+  let '(csize, maxc, nthr, sc, notes, queue, helds, counters) := c in
+  let cf := {| m_csize := csize; m_max := maxc |} in
+  let '(s, ev) := mrun_trace cf (minit nthr) sc in
+  let '(f1, f2, f3) := mfinal_obs s in
+  eqb_ln (flat ev) notes && eqb_ln f1 queue && eqb_lln f2 helds && eqb_ln f3 counters.
+
 Inductive xcase :=
 | XTag (c : tag_case)
 | XTag2 (c : tag2_case)
 | XFC (c : fc_case)
-| XSP (c : sp_case).
+| XSP (c : sp_case)
+| XMP (c : mp_case).
 
 Definition xok (c : xcase) : bool :=
   match c with
@@ -72,4 +84,5 @@ Definition xok (c : xcase) : bool :=
   | XTag2 c => ok_tag2 c
   | XFC c => ok_fc c
   | XSP c => ok_sp c
+  | XMP c => ok_mp c
   end.
